@@ -215,8 +215,11 @@ contract('parso.python.parser.Parser.error_recovery.current_suite', closure_of='
          requires=['stack is not None', 'len(stack) >= 1',
                    'forall(lambda k: implies(0 <= k and k < len(stack), stack[k] is not None and stack[k].dfa is not None '
                    'and stack[k].nodes is not None), trigger=lambda k: stack[k])'],
-         ensures=['0 <= result', 'result < len(stack)'],
-         loops={0: dict(invariant=['implies(_i > 0, until_index == len(stack) - _i)'])}, props=['C02'])
+         ensures=['0 <= result', 'result < len(stack)',
+                  # C05 "errors only where a statement or block is expected": recovery cuts the stack back to a
+                  # file_input or suite entry (or to the root entry)
+                  'result == 0 or stack[result].dfa.from_rule == "file_input" or stack[result].dfa.from_rule == "suite"'],
+         loops={0: dict(invariant=['implies(_i > 0, until_index == len(stack) - _i)'])}, props=['C02', 'C05'])
 
 contract('parso.python.parser.Parser.error_recovery#recover', params={'self': 'ref:Parser', 'token': 'ref:PythonToken'},
          requires=['self._error_recovery', 'self._start_nonterminal == "file_input"',
